@@ -22,7 +22,7 @@ RECURSIVE Layout(_, _)
 Layout(ss, at) == IF ss = << >> THEN << >>
                   ELSE LET s == Head(ss) IN
                        <<[start |-> at, headEnd |-> at + s.hl, end |-> at + s.hl + s.bl, bodyLen |-> s.bl,
-                          expect100 |-> s.expect100, close |-> s.close, hclose |-> s.hclose, bad |-> s.bad, big |-> s.big, partial |-> FALSE, ambig |-> FALSE]>>
+                          expect100 |-> s.expect100, close |-> s.close, hclose |-> s.hclose, bad |-> s.bad, big |-> s.big, partial |-> FALSE, ambig |-> FALSE, pre |-> FALSE]>>
                        \o Layout(Tail(ss), at + s.hl + s.bl)
 
 RECURSIVE SeqsUpTo(_, _)
